@@ -7,16 +7,9 @@ tail of `ServeHTTP`, `IsErrorResponse`). All statements are for every `Register*
 outcome of the implementation and every `http.StatusText`; `C` ranges over the constants of either
 module generation and `TiedErr C` says they are what the property demands.
 
-Findings on the unchanged tree (full statements kept, `_partial` published, negation proved):
-
-* F8a  an `*ErrorResponse` with neither status nor message: nil dereference in `ServeHTTP`, outside
-       any `recover` — the connection is dropped                       — guard `e.status.isSome ∨ e.message.isSome`
-* F8b  an `*ErrorResponse` with a status and no message is completed **in place**: the
-       implementation's (possibly shared) object is modified           — guard `e.message.isSome ∨ e.status.isNone`
-* F9   a nil result returned without an error by a method whose result is marshalled by `ServeHTTP`
-       (get, batch_*, get_all, finder, action with results, partial update with return entity):
-       `MarshalRestLi` on a nil receiver, outside any `recover` — the connection is dropped
-                                                                        — guard `k.shape ≠ .marshalledBody`
+No finding is left on the repaired tree: an empty `*ErrorResponse` no longer drops the connection
+(was F8a), the resource's error object is no longer completed in place (was F8b), a nil result
+without an error is a 500 for every method kind (was F9). The theorems below are full strength.
 
 Not modelled (said here rather than guessed): per-key errors inside batch responses (C16 owns the
 key correlation; the envelope is the codec's), concurrent sharing of error objects (C17). -/
@@ -38,6 +31,7 @@ structure TiedErr (C : Consts) : Prop where
   nilStatus : C.srvNilStatus = 500
   recover : C.recoverStatus = 500
   wrap : ∀ k : Kind, failure (wrapStatus C k) = true
+  nilResult : ∀ k : Kind, failure (nilResultStatus C k) = true
   preset : ∀ k : Kind, presetStatus C k = protocolDefault k
 
 /-- The v2 constants (statuses in `ServeHTTP`, `receive`, the closures and the `Register*` wrappers,
@@ -48,12 +42,14 @@ theorem c08_constants_tied_v2 : TiedErr constsV2 := by
   · decide
   · intro k; cases k <;> decide
   · intro k; cases k <;> decide
+  · intro k; cases k <;> decide
 
 /-- The same for the root module. -/
 theorem c08_constants_tied_root : TiedErr constsRoot := by
   constructor
   · decide
   · decide
+  · intro k; cases k <;> decide
   · intro k; cases k <;> decide
   · intro k; cases k <;> decide
 
@@ -67,25 +63,14 @@ def Delivered (C : Consts) (statusText : Nat → String) (k : Kind) (e : ErrResp
     e'.status = e.status ∧ e'.rest = e.rest ∧ (e.message.isSome → e'.message = e.message) ∧
     clientView (serveOutcome C statusText k (.errResp e)).1 = .restliError { e' with status := some (e.status.getD 500) }
 
-/-- **Full statement** (false today: F8a). -/
-def ErrorResponseDelivered (C : Consts) : Prop :=
-  ∀ (statusText : Nat → String) (k : Kind) (e : ErrResp), Delivered C statusText k e
-
-/-- An error response with a status or a message (or both) is delivered to the client as a
-`*restli.Error` carrying the same status (500 when unset), message and remaining fields, over an HTTP
-response with that status and the error header. -/
-theorem c08_error_response_delivered_partial (C : Consts) (hC : TiedErr C) (statusText : Nat → String)
-    (k : Kind) (e : ErrResp) (hg : e.status.isSome = true ∨ e.message.isSome = true) :
-    Delivered C statusText k e := by
+/-- Every error response — with or without a status, with or without a message — is delivered to
+the client as a `*restli.Error` carrying the same status (500 when unset), message and remaining
+fields, over an HTTP response with that status and the error header. -/
+theorem c08_error_response_delivered (C : Consts) (hC : TiedErr C) (statusText : Nat → String)
+    (k : Kind) (e : ErrResp) : Delivered C statusText k e := by
   obtain ⟨st, msg, rest⟩ := e
   cases st <;> cases msg <;>
     simp_all [Delivered, serveOutcome, receiveImpl, respondTail, clientView, hC.nilStatus]
-
-/-- (F8a) `&ErrorResponse{}`: the connection is dropped. -/
-theorem c08_error_response_cex_empty : ¬ ErrorResponseDelivered constsV2 := by
-  intro h
-  obtain ⟨e', hw, _⟩ := h (fun _ => "") .get ⟨none, none, 0⟩
-  revert hw; simp [serveOutcome, receiveImpl, respondTail]
 
 /-! ## every other failure becomes an error response -/
 
@@ -93,7 +78,11 @@ theorem c08_error_response_cex_empty : ¬ ErrorResponseDelivered constsV2 := by
 def otherFailure (k : Kind) : ImplOutcome → Option String
   | .otherErr msg => some msg
   | .panic msg => some msg
-  | .typedNil => if k.shape = .derefInWrapper ∨ k.shape = .marshalledBody then some "nil pointer dereference" else none
+  | .typedNil =>
+    match k.shape with
+    | .derefInWrapper => some "nil pointer dereference"
+    | .marshalledBody => some "nil result"
+    | _ => none
   | _ => none
 
 /-- the request is answered with a well-formed error response: failure status, error header, a
@@ -103,16 +92,10 @@ def BecomesErrorResponse (C : Consts) (statusText : Nat → String) (k : Kind) (
     (serveOutcome C statusText k o).1 = .response st true (.error ⟨some st, some msg, rest⟩) ∧
     clientView (serveOutcome C statusText k o).1 = .restliError ⟨some st, some msg, rest⟩
 
-/-- **Full statement** (false today: F9). -/
-def OtherFailuresReported (C : Consts) : Prop :=
-  ∀ (statusText : Nat → String) (k : Kind) (o : ImplOutcome) (msg : String),
-    otherFailure k o = some msg → BecomesErrorResponse C statusText k o msg
-
-/-- An ordinary error and a panic always, and a nil result wherever the `Register*` wrapper itself
-touches it, are answered with an error response carrying a failure status and the error's message. -/
-theorem c08_other_outcomes_become_error_responses_partial (C : Consts) (hC : TiedErr C) (statusText : Nat → String)
-    (k : Kind) (o : ImplOutcome) (msg : String) (ho : otherFailure k o = some msg)
-    (hg : o = .typedNil → k.shape ≠ .marshalledBody) :
+/-- An ordinary error, a panic and a nil result returned without an error — for every method kind
+that has a result — are answered with an error response carrying a failure status and a message. -/
+theorem c08_other_outcomes_become_error_responses (C : Consts) (hC : TiedErr C) (statusText : Nat → String)
+    (k : Kind) (o : ImplOutcome) (msg : String) (ho : otherFailure k o = some msg) :
     BecomesErrorResponse C statusText k o msg := by
   cases o with
   | otherErr m =>
@@ -124,20 +107,22 @@ theorem c08_other_outcomes_become_error_responses_partial (C : Consts) (hC : Tie
     exact ⟨C.recoverStatus, libRest, by rw [hC.recover]; decide, by simp [serveOutcome, receiveImpl, respondTail], by
       simp [serveOutcome, receiveImpl, respondTail, clientView]⟩
   | typedNil =>
-    have hs := hg rfl
-    cases hsh : k.shape <;> simp_all [otherFailure]
-    subst ho
-    exact ⟨C.recoverStatus, libRest, by rw [hC.recover]; decide, by simp [serveOutcome, receiveImpl, respondTail, hsh], by
-      simp [serveOutcome, receiveImpl, respondTail, clientView, hsh]⟩
+    cases hsh : k.shape <;> simp [otherFailure, hsh] at ho
+    · subst ho
+      exact ⟨C.recoverStatus, libRest, by rw [hC.recover]; decide, by simp [serveOutcome, receiveImpl, respondTail, hsh], by
+        simp [serveOutcome, receiveImpl, respondTail, clientView, hsh]⟩
+    · subst ho
+      exact ⟨nilResultStatus C k, libRest, hC.nilResult k, by simp [serveOutcome, receiveImpl, respondTail, hsh], by
+        simp [serveOutcome, receiveImpl, respondTail, clientView, hsh]⟩
   | value => simp [otherFailure] at ho
   | errResp e => simp [otherFailure] at ho
   | statusOverride n => simp [otherFailure] at ho
 
-/-- (F9) `get` returning `(nil, nil)`: the connection is dropped. -/
-theorem c08_other_outcomes_cex_typed_nil : ¬ OtherFailuresReported constsV2 := by
-  intro h
-  obtain ⟨st, rest, _, hw, _⟩ := h (fun _ => "") .get .typedNil "nil pointer dereference" (by decide)
-  revert hw; simp [serveOutcome, receiveImpl, respondTail, Kind.shape]
+/-- "Never a crashed connection": whatever the implementation does, the client gets a response. -/
+theorem c08_connection_never_dropped (C : Consts) (statusText : Nat → String) (k : Kind) (o : ImplOutcome) :
+    (serveOutcome C statusText k o).1 ≠ .connectionDropped := by
+  cases o <;> cases hsh : k.shape <;> simp [serveOutcome, receiveImpl, respondTail, hsh] <;>
+    split <;> simp [respondTail]
 
 /-- Whatever goes wrong, the client is never told that the call succeeded: an error response, an
 ordinary error or a panic never reach the client as a 2xx result. -/
@@ -154,23 +139,11 @@ theorem c08_failure_never_looks_like_success (C : Consts) (statusText : Nat → 
 
 /-! ## error objects are not modified -/
 
-/-- **Full statement** (false today: F8b): the implementation's error object is the same afterwards. -/
-def ErrorObjectUnchanged (C : Consts) : Prop :=
-  ∀ (statusText : Nat → String) (k : Kind) (e : ErrResp), (serveOutcome C statusText k (.errResp e)).2 = some e
-
-/-- The error object returned by resource code is left as it was whenever it carries a message (or
-no status: then the server fails before it gets to write). -/
-theorem c08_error_object_unchanged_partial (C : Consts) (statusText : Nat → String) (k : Kind) (e : ErrResp)
-    (hg : e.message.isSome = true ∨ e.status.isNone = true) :
+/-- Error objects returned by resource code are not modified: after the call the implementation's
+error response is exactly what it returned, so it may be shared between requests. -/
+theorem c08_error_object_unchanged (C : Consts) (statusText : Nat → String) (k : Kind) (e : ErrResp) :
     (serveOutcome C statusText k (.errResp e)).2 = some e := by
-  obtain ⟨st, msg, rest⟩ := e
-  cases st <;> cases msg <;> simp_all [serveOutcome, receiveImpl, respondTail]
-
-/-- (F8b) `&ErrorResponse{Status: 404}`: the object has a message afterwards. -/
-theorem c08_error_object_cex_message_written : ¬ ErrorObjectUnchanged constsV2 := by
-  intro h
-  have := h (fun _ => "Not Found") .get ⟨some 404, none, 0⟩
-  revert this; simp [serveOutcome, receiveImpl, respondTail]
+  simp [serveOutcome, receiveImpl, respondTail]
 
 /-! ## successful calls -/
 
@@ -190,7 +163,15 @@ theorem c08_success_status_override (C : Consts) (statusText : Nat → String) (
 /-! ## non-vacuity -/
 
 example : Delivered constsV2 (fun _ => "Not Found") .get ⟨some 404, none, 3⟩ :=
-  c08_error_response_delivered_partial constsV2 c08_constants_tied_v2 _ .get _ (Or.inl rfl)
+  c08_error_response_delivered constsV2 c08_constants_tied_v2 _ .get _
+/-- (was F8a) `&ErrorResponse{}` is a 500 with the default message -/
+example : (serveOutcome constsV2 (fun _ => "Internal Server Error") .get (.errResp ⟨none, none, 0⟩)).1 =
+    .response 500 true (.error ⟨none, some "Internal Server Error", 0⟩) := by decide
+/-- (was F8b) the resource's object keeps its missing message -/
+example : (serveOutcome constsV2 (fun _ => "Not Found") .get (.errResp ⟨some 404, none, 0⟩)).2 = some ⟨some 404, none, 0⟩ := by decide
+/-- (was F9) `get` returning `(nil, nil)` is a 500 -/
+example : (serveOutcome constsV2 (fun _ => "") .get .typedNil).1 =
+    .response 500 true (.error ⟨some 500, some "nil result", 0⟩) := by decide
 example : (serveOutcome constsV2 (fun _ => "Not Found") .get (.errResp ⟨some 404, none, 3⟩)).1 =
     .response 404 true (.error ⟨some 404, some "Not Found", 3⟩) := by decide
 example : (serveOutcome constsV2 (fun _ => "") .action (.otherErr "boom")).1 =
@@ -200,6 +181,6 @@ example : (serveOutcome constsV2 (fun _ => "") .finder (.otherErr "boom")).1 =
 example : (serveOutcome constsV2 (fun _ => "") .create .typedNil).1 =
     .response 500 true (.error ⟨some 500, some "nil pointer dereference", 0⟩) := by decide
 example : (serveOutcome constsRoot (fun _ => "") .create .value).1 = .response 201 false .empty := by decide
-example : clientView (serveOutcome constsV2 (fun _ => "") .batchGet .typedNil).1 = .transportError := by decide
+example : clientView (serveOutcome constsV2 (fun _ => "") .batchGet .typedNil).1 = .restliError ⟨some 500, some "nil result", 0⟩ := by decide
 
 end Restli.ErrorFlow
